@@ -13,13 +13,13 @@ from vlib import VERIF, Evidence, Reporter, run_tlc, write_cfg, scratch, SEED, s
 PID = "C05"
 CHECKS = ["MetaSizeChecked", "InodeTypeChecked", "DirCountChecked", "NameSizeChecked", "FragIdxChecked", "FragBoundsChecked",
           "DiskSizeCheckedRead", "DiskSizeCheckedStream", "LoopCheckedTree", "LoopCheckedIter", "XattrIdxChecked", "IdIdxChecked",
-          "TableBoundsChecked", "LongLinkBySize", "FragSumNoWrap", "XattrAbsenceChecked"]
+          "TableBoundsChecked", "LongLinkBySize", "FragSumNoWrap", "XattrAbsenceChecked", "XattrKvChecked"]
 BS = 4096
 
 
 def base_tree(plan):
     data = bytes((i * 7) % 251 for i in range(2 * BS + 300))
-    f = {"kind": "file", "name": b"f", "data": data, "mode": 0o644, "xattrs": {b"user.k": b"v"}, "uid": 3}
+    f = {"kind": "file", "name": b"f", "data": data, "mode": 0o644, "xattrs": {b"user.k": b"vvvvvvvv"}, "uid": 3}
     g = {"kind": "file", "name": b"g", "data": b"small tail", "mode": 0o600}
     lnk = {"kind": "slink", "name": b"l", "target": b"../g"}
     # enough inode bytes behind the symlink for an oversized target to stay inside the table
@@ -89,6 +89,24 @@ def concretise(plan):
         struct.pack_into("<Q", raw, 80, 0)                        # fragment table start -> superblock
     if plan["meta_hdr_size"] == "over8k":
         struct.pack_into("<H", raw, sup["inode_tbl"], 0x8000 | 9000)
+    xk = plan.get("xattr_kv", "ok")
+    if xk != "ok" and sup["xattr_tbl"] != sqfsimg.INVALID64:
+        kvs = struct.unpack_from("<Q", raw, sup["xattr_tbl"])[0]
+        ent = kvs + 2                                   # behind the metadata block header: type u16, key size u16, key, value size u32, value
+        ksz = struct.unpack_from("<H", raw, ent + 2)[0]
+        voff = ent + 4 + ksz
+        if xk == "prefix_bad":
+            struct.pack_into("<H", raw, ent, 0x0055)
+        elif xk == "key_huge":
+            struct.pack_into("<H", raw, ent + 2, 0xFFF0)
+        elif xk == "val_huge":
+            struct.pack_into("<I", raw, voff, 0xFFFFFF00)
+        elif xk == "ool_oob":
+            struct.pack_into("<H", raw, ent, struct.unpack_from("<H", raw, ent)[0] | 0x0100)
+            struct.pack_into("<IQ", raw, voff, 8, (0xFFFFFFFF << 16) | 5)
+        elif xk == "count_huge":
+            idloc = struct.unpack_from("<Q", raw, sup["xattr_tbl"] + 16)[0]
+            struct.pack_into("<I", raw, idloc + 2 + 8, 0x00FFFFFF)
     if plan["dir_count"] == "over256":
         # first directory header of the directory table: count field
         struct.pack_into("<I", raw, sup["dir_tbl"] + 2, 5000)
